@@ -8,7 +8,7 @@ Integer.random(exact_bits) IS the candidate) towards primes the oracle built wit
 import math
 import random
 
-from .c05 import CURVES, FIPS_LN
+from .c05 import CURVES
 
 
 def _tape(entropy, seed, data=b""):
@@ -69,7 +69,7 @@ def _prime_below(start, cond):
 
 
 def scripted_rsa(ctx, H, entropy, RSA, bits, scenario):
-    """bits even: p and q have the same size, every draw (candidate or Miller-Rabin base) takes nb bytes, so the
+    """bits even: p and q have the same size and every draw (candidate or Miller-Rabin base) takes nb bytes, so the
     script stays aligned on draw boundaries whatever the number of Miller-Rabin rounds is."""
     half = bits // 2
     nb = (half + 7) // 8
@@ -77,21 +77,24 @@ def scripted_rsa(ctx, H, entropy, RSA, bits, scenario):
     e = r.choice([3, 17, 65537])
     enc = lambda v: v.to_bytes(nb, "big")
     ok = lambda c: math.gcd(c - 1, e) == 1
-    # top 12 bits set: above sqrt(2)*2^(half-1), and a Miller-Rabin base draw in [2, P1-2] is practically never rejected
-    P1 = _prime_top(r, half, 0xfff, 12, ok)
     tape_seed = r.getrandbits(48)
-    target = None
     if scenario == "close-q":
-        # the largest admissible prime below P1 - 4: |P1 - P'| is far below 2^(half-100)
+        # P1 with its top 12 bits set: a Miller-Rabin base draw in [2, P1-2] is practically never rejected.
+        # target = the largest admissible prime below P1 - 4: |P1 - target| is far below 2^(half-100).  The copies read as
+        # Miller-Rabin bases for P1 are harmless; the first copy read as a CANDIDATE is the close prime.
+        P1 = _prime_top(r, half, 0xfff, 12, ok)
         target = _prime_below(P1 - 4, ok)
         assert 0 < P1 - target < (1 << (half - 100))
-        # as Miller-Rabin bases for P1 the copies are harmless; the first copy read as a candidate is the close prime
         script = enc(P1) + enc(target) * 24
     elif scenario == "q-equals-p":
+        # P1 just above sqrt(2)*2^(half-1): nearly every random candidate c is larger, so a copy of P1 read as a Miller-Rabin
+        # base (for a composite c) is a legal base, c fails, and the next copy is read as a candidate: q = p is offered.
+        P1 = _prime_top(r, half, 0xb60, 12, ok)
         target = P1
         pr = random.Random(tape_seed ^ 0x5a5a)
-        script = enc(P1) + bytes(pr.getrandbits(8) for _ in range(12 * nb)) + enc(P1) * 3
+        script = enc(P1) + bytes(pr.getrandbits(8) for _ in range(16 * nb)) + enc(P1) * 4
     elif scenario == "small-d":
+        P1 = _prime_top(r, half, 0xfff, 12, ok)
         P2 = _prime_top(r, half, 0xffe, 12, lambda c: True)
         lam = (P1 - 1) * (P2 - 1) // math.gcd(P1 - 1, P2 - 1)
         while True:
@@ -108,14 +111,16 @@ def scripted_rsa(ctx, H, entropy, RSA, bits, scenario):
     with FilterSpy(RSA) as spy:
         H.offer("RSA", "generate", "scripted-tape", "rsa%d/%s" % (bits, scenario),
                 lambda: RSA.generate(bits, randfunc=t, e=e), valid=True, req={"bits": bits, "e": e},
-                wit=lambda: {"bits": bits, "e": e, "scenario": scenario, "tape_prefix": script[:3 * nb], "tape_prefix_len": len(script),
-                             "then_prng_seed": tape_seed, "P1": P1, "steered_candidate": target})
+                wit=lambda: {"bits": bits, "e": e, "scenario": scenario, "tape_prefix": script, "then_prng": "random.Random(%d) bytes" % tape_seed,
+                             "P1": P1, "steered_candidate": target})
     ctx.count("scripted_rsa_tapes")
     ctx.count("boundary_tapes")
-    seen = dict((c, v) for c, v in spy.seen)
-    if target in seen:
-        ctx.count("scripted_candidate_seen_by_filter:" + scenario)
-        ctx.count("scripted_candidate_filter_verdict:%s:%s" % (scenario, seen[target]))
+    # observation only: was the steered number really offered as a q candidate, and what did the library's filter say?
+    verdicts = [v for cand, v in spy.seen[1:] if cand == target]
+    if verdicts:
+        ctx.count("scripted_candidate_seen_by_q_filter:" + scenario)
+        ctx.count("scripted_candidate_q_filter_verdict:%s:%s" % (scenario, verdicts[0]))
+    return bool(verdicts)
 
 
 def w_gen_rsa(spec, ctx, H, entropy):
@@ -126,7 +131,9 @@ def w_gen_rsa(spec, ctx, H, entropy):
     if idx == 0:
         for scenario in ("close-q", "q-equals-p", "small-d"):
             for bits in ((1024,) if quick else (1024, 1026, 2048)):
-                scripted_rsa(ctx, H, entropy, RSA, bits, scenario)
+                for attempt in range(4):
+                    if scripted_rsa(ctx, H, entropy, RSA, bits, scenario) or getattr(RSA, "generate_probable_prime", None) is None:
+                        break
     sizes = list(range(1024, 1031))
     round_ = 0
     combos = [(b, e) for b in sizes for e in (3, 17, 65537)]
@@ -189,7 +196,11 @@ def w_gen_dsa(spec, ctx, H, entropy):
             p, q, g = dom
             L, N = p.bit_length(), q.bit_length()
             nb = (N + 64 + 7) // 8
-            tapes = {"prng": b"", "zeros": bytes(nb), "ones": b"\xff" * nb, "q-1-multiple": ((q - 1) << 64).to_bytes(nb, "big")[-nb:]}
+            # boundary draws for x = c mod (q-1) + 1 (FIPS 186-4 B.1.1): c a multiple of q-1 (x = 1), c a multiple of q,
+            # c = -1 mod (q-1) (x = q-1)
+            km = ((1 << (N + 63)) // q + 1)
+            tapes = {"prng": b"", "zeros": bytes(nb), "ones": b"\xff" * nb, "multiple-of-q-1": ((q - 1) << 64).to_bytes(nb, "big"),
+                     "multiple-of-q": (q * km).to_bytes(nb, "big"), "minus-1-mod-q-1": (((q - 1) << 64) - 1).to_bytes(nb, "big")}
             for tname, data in tapes.items():
                 if round_ and tname != "prng" and rng.random() < 0.7:
                     continue
